@@ -1,5 +1,5 @@
 """C08 (script bytes survive round trips) and C20 (malformed input is rejected, not a crash): Flat.tla, MC_Flat.tla."""
-import json, os, random, time
+import os, json, random, time
 import vlib, termgen
 from vlib import log
 from uplc_checks import cj
@@ -78,7 +78,31 @@ def c08(tier):
                 rep.violation("rt:" + cj(rq["term"]) + k, {"term": rq["term"], "bytes": rq["flat"], "observed": d}, "%s(to_flat(p)) is not p" % k)
         if o.get("to_flat") != rq["flat"]:
             rep.violation("stable:" + cj(rq["term"]), {"term": rq["term"]}, "re-serialising the decoded program does not reproduce the bytes")
-    cov = {"states": r.distinct, "transitions": r.generated, "traces_validated_against_impl": checked + len(real2),
+    # the published hash is the ledger hash of the published code for the DECLARED Plutus version, and survives load / save
+    import hashlib
+    vsrc = "validator v(p: Int) {\n  mint(_r: Data, _p: ByteArray, _tx: Data) {\n    p == 1\n  }\n\n  else(_) {\n    fail\n  }\n}\n"
+    b0 = vlib.run_harness("blueprint_ops", stdin_lines=[{"id": 0, "dir": os.path.join(vlib.WORK, "bp", "c08_%d" % os.getpid()), "src": vsrc, "ops": []}])[0]
+    if b0.get("build") != "ok":
+        raise vlib.ToolError("C08: the blueprint project does not build: %s" % json.dumps(b0.get("build"))[:400])
+    lh = lambda code, v: hashlib.blake2b(bytes([v]) + bytes.fromhex(code), digest_size=28).hexdigest()
+    hashes_checked = 0
+    for ver, vnum in (("v1", 1), ("v2", 2), ("v3", 3)):
+        bp = json.loads(json.dumps(b0["blueprint"]))
+        bp["preamble"]["plutusVersion"] = ver
+        for x in bp["validators"]:
+            x["hash"] = lh(x["compiledCode"], vnum)
+        o = vlib.run_harness("blueprint_ops", stdin_lines=[{"id": 0, "dir": "", "blueprint_json": json.dumps(bp), "histories": [[{"op": "saveload"}, {"op": "saveload"}]],
+                                                            "ctxs": {}, "ops": [], "select": {"module": "v", "validator": "v"}}])[0]
+        if o.get("build") != "ok":
+            rep.violation("blueprint-load:" + ver, {"version": ver, "observed": o.get("build")}, "a %s blueprint with correct hashes does not load: %s" % (ver, json.dumps(o.get("build"))[:200]))
+            continue
+        for st in [{"validators": [{"title": x["title"], "hash": x.get("hash"), "compiledCode": x.get("compiledCode")} for x in o["blueprint"]["validators"]]}] + o["histories"][0]["steps"]:
+            for x in st["validators"]:
+                hashes_checked += 1
+                if x["hash"] != lh(x["compiledCode"], vnum):
+                    rep.violation("blueprint-hash:" + ver, {"version": ver, "published": x["hash"], "ledger_hash_for_declared_version": lh(x["compiledCode"], vnum)},
+                                  "after loading / saving a %s blueprint the published hash is not the ledger hash of the published code for Plutus %s" % (ver, ver))
+    cov = {"states": r.distinct, "transitions": r.generated, "traces_validated_against_impl": checked + len(real2), "blueprint_hashes_recomputed": hashes_checked,
            "samples": [{"term": cases[30]["term"], "spec_flat_bytes": cases[30]["flat"]}, {"term": cases[-3]["term"], "spec_flat_bytes": cases[-3]["flat"][:40]}],
            "evaluations": checked + 2 * len(real2), "distinct_nontrivial": checked + len(set(cj(t) for t in terms)),
            "rule": "MC_Flat: the tables of MC_Text (every built-in, constant type and nesting, string class, Data tag range, term constructor) "
